@@ -181,7 +181,7 @@ def run(ctx):
         "the number of bandwidth-expansion rounds silk_NLSF2A applies is not derived (inverse prediction gain not modelled): any 0..16 is accepted",
     ]
     var = vf.build_variant("hk")
-    exe = vf.build_hx(var, "silk.c")
+    exe = vf.build_hx(var, "silk.c", extra=["-Wl,--wrap=silk_process_NLSFs,--wrap=silk_decode_parameters"])
     tab, tables = _tables(ctx, exe)
     env = {"SILKTAB": tab}
     if ctx.replay:
